@@ -3,7 +3,7 @@
    the estimators work from (supplied, or utils.autocorr(x) — its correctness is property C20);
    all statements hold for every order and every complex sequence R meeting the stated guards. *)
 From Coq Require Import QArith List Bool Arith Lia Psatz Lqa.
-From NT Require Import QC AR ARP.
+From NT Require Import QC Sums AR ARP ARGram.
 Import ListNotations.
 Open Scope Q_scope.
 
@@ -54,13 +54,78 @@ Theorem C10_sigma_pos_of_pd : forall R order,
 Proof. exact sigma_pos_of_pd. Qed.
 Print Assumptions C10_sigma_pos_of_pd.
 
+(* The biased autocorrelation estimate the code uses, R(k) = (1/N) sum_{t=0}^{N-1-k} x[t+k] conj(x[t])
+   (utils.autocorr: crosscov conjugates its second argument, no debias, divided by N; `autocorr_lag`, tied to
+   the implementation on every run by the KAC cases), turns the Hermitian Toeplitz form into a Gram form:
+   N * c^H T c = sum_t |w_t|^2 with w_t = sum_j c_j conj(y[t-p+j]) for the zero-padded signal y.
+   Every signal length, every order, every complex c. *)
+Theorem C10_gram_identity : forall (x : list C) c p,
+  (0 < length x)%nat ->
+  let R := Rd (nthC x) (length x) in
+  (forall k, autocorr_lag x k =c= R k) /\
+  cscale (NQ (length x)) (hform R c (S p)) =c=
+    ofQ (sumn (fun t => cnorm2 (wv (nthC x) c p t)) (length x + p)) /\
+  0 <= re (hform R c (S p)) /\ im (hform R c (S p)) == 0.
+Proof.
+  intros x c p HN R. split; [intros k; apply autocorr_lag_Rd|]. split.
+  - apply hform_real; [exact HN|apply pad_nthC].
+  - apply gram_psd; [exact HN|apply pad_nthC].
+Qed.
+Print Assumptions C10_gram_identity.
+
+(* ... strictly positive for a non-zero signal on every c with a non-zero entry (j0 = its lowest one) *)
+Theorem C10_gram_positive_definite : forall (x : list C) c p j0,
+  (exists t, (t < length x)%nat /\ ~ nthC x t =c= c0) ->
+  (j0 <= p)%nat -> ~ c j0 =c= c0 -> (forall j, (j < j0)%nat -> c j =c= c0) ->
+  0 < re (hform (Rd (nthC x) (length x)) c (S p)).
+Proof.
+  intros x c p j0 Hx. apply gram_pd; [|apply pad_nthC|exact Hx].
+  destruct Hx as (t & Ht & _). lia.
+Qed.
+Print Assumptions C10_gram_positive_definite.
+
+(* hence, for EVERY non-zero signal and every order < N, the sequence the estimators compute from the
+   data has a real R_0, strictly positive prediction errors of all orders (the guards of
+   C10_LD_solves_YW / C10_LD_sigma hold: no division by zero in the loop), a positive reported
+   innovation variance and reflection coefficients of modulus < 1 *)
+Theorem C10_sigma_pos_data : forall x order,
+  (1 <= order < length x)%nat -> (exists t, (t < length x)%nat /\ ~ nthC x t =c= c0) ->
+  let R := autocorr_seq x (S order) in
+  (1 <= order < length R)%nat /\ im (nthC R 0) == 0 /\
+  (forall q, (q <= order)%nat -> 0 < ld_err R q) /\
+  (forall q, (q < order)%nat -> ~ ld_err R q == 0) /\
+  0 < snd (AR_est_LD R order) /\
+  (forall q, (1 <= q <= order)%nat -> cnorm2 (nthC (fst (AR_est_LD R q)) (q - 1)) < 1).
+Proof. exact sigma_pos_data. Qed.
+Print Assumptions C10_sigma_pos_data.
+
+(* so for data-derived sequences the normal equations hold unconditionally *)
+Theorem C10_LD_solves_YW_data : forall x order,
+  (1 <= order < length x)%nat -> (exists t, (t < length x)%nat /\ ~ nthC x t =c= c0) ->
+  let R := autocorr_seq x (S order) in
+  length (fst (AR_est_LD R order)) = order /\
+  (forall i, (i < order)%nat ->
+     matvec order (toep (firstn order R)) (fst (AR_est_LD R order)) i =c= nthC R (S i)) /\
+  ofQ (snd (AR_est_LD R order)) =c=
+    csub (nthC R 0) (csumn (fun j => cmul (nthC (fst (AR_est_LD R order)) j) (cconj (nthC R (S j)))) order) /\
+  0 < snd (AR_est_LD R order).
+Proof.
+  intros x order Ho Hx R.
+  destruct (sigma_pos_data x order Ho Hx) as (L & H0 & _ & G & P & _). fold R in L, H0, G, P.
+  destruct (LD_solves_YW R order L H0 G) as [Len Sv].
+  split; [exact Len|]. split; [exact Sv|]. split; [apply LD_sigma; assumption|exact P].
+Qed.
+Print Assumptions C10_LD_solves_YW_data.
+
 (* PARTIAL.  Full statement of the property: "for any real or complex signal the reported innovation
-   variance is positive and the fitted model is stable".  Proved: C10_sigma_pos (positivity GIVEN
-   |k_q| < 1 for q = 1..order).  and C10_sigma_pos_of_pd (positivity and |k_q| < 1 GIVEN positive definite Toeplitz forms).
-   Missing: that the FFT-based biased autocorrelation estimate of an arbitrary non-zero signal is
-   positive definite (a Gram-matrix argument on top of C20's lagged-sum theorem) and that |k_q| < 1
-   implies all roots of 1 - sum a_k z^-k lie inside the unit circle (Schur-Cohn).  Both are checked
-   numerically on every generated signal (sigma > 0, root moduli < 1) by the search oracle only. *)
+   variance is positive and the fitted model is stable".  Proved: positivity of the innovation
+   variance and |k_q| < 1 for every non-zero signal and every order < N (C10_sigma_pos_data, through the
+   Gram identity and c^H T c = b_p), and for supplied sequences given |k_q| < 1 (C10_sigma_pos) or
+   positive definite Toeplitz forms (C10_sigma_pos_of_pd).
+   Missing: ONLY the Schur-Cohn step — that |k_q| < 1 for q = 1..p implies that all roots of
+   1 - sum a_k z^-k lie strictly inside the unit circle (stability).  Root moduli are checked
+   numerically on every generated signal by the search oracle.  (The all-zero signal is excluded:
+   R_0 = 0 and the code divides by it.) *)
 Theorem C10_positive_stable_partial : forall R order,
   (1 <= order)%nat -> 0 < re (nthC R 0) ->
   (forall q, (1 <= q <= order)%nat -> cnorm2 (nthC (fst (AR_est_LD R q)) (q - 1)) < 1) ->
@@ -230,4 +295,15 @@ Proof.
     unfold cmul, cadd, cconj, c0, re, im; simpl; rewrite ?E1, ?E2.
   - reflexivity.
   - pose proof (Qsq_nonneg' (x + (1#2))) as S1. pose proof (Qsq_nonneg' (y + (1#4))) as S2. lra.
+Qed.
+
+(* a non-zero complex signal: the hypotheses of C10_sigma_pos_data / C10_LD_solves_YW_data are met *)
+Definition ex_x : list C := [(1, 0); (1#2, 1#2); (0, -1#2); (1#4, 0); (-1#3, 1#5)].
+Example C10_data_hypotheses_met :
+  (1 <= 3 < length ex_x)%nat /\ (exists t, (t < length ex_x)%nat /\ ~ nthC ex_x t =c= c0) /\
+  ~ im (nthC (autocorr_seq ex_x 4) 1) == 0.
+Proof.
+  split; [simpl; lia|]. split.
+  - exists 1%nat. split; [simpl; lia|]. intros [E _]. vm_compute in E. discriminate.
+  - intro E. vm_compute in E. discriminate.
 Qed.
